@@ -47,6 +47,7 @@ pub fn base(s: Suite) -> Base {
 
 fn usv(v: &Value) -> Vec<usize> { v.as_array().map(|a| a.iter().map(|x| x.as_u64().unwrap_or(0) as usize).collect()).unwrap_or_default() }
 fn us(v: &Value) -> usize { v.as_u64().unwrap_or(0) as usize }
+fn none(c: &serde_json::Value, which: char) -> bool { c["none"].as_str().map(|s| s.contains(which)).unwrap_or(false) }
 fn kind_of(s: &str) -> Kind { match s { "pk" => Kind::Pk, "sk" => Kind::Sk, "sig" => Kind::Sig, "bsig" => Kind::BlindSig, "proof" => Kind::Proof, _ => Kind::Commitment } }
 fn unit<T>(o: O<T>) -> O<()> { o.map(|_| ()) }
 fn take(m: &[Vec<u8>], n: usize) -> Vec<Vec<u8>> { (0..n).map(|i| m.get(i).cloned().unwrap_or_else(|| format!("extra-{}", i).into_bytes())).collect() }
@@ -76,12 +77,15 @@ pub fn exec(zk: &dyn Zk, b: &Base, c: &Value) -> O<()> {
         "verify_sig" => zk.verify(&k.pk, &bytes, h, Some(&b.msgs)),
         "json_use" => zk.use_json(kind_of(c["kind"].as_str().unwrap_or("")), c["j"].as_str().unwrap_or(""), &k.pk, h, ph, Some(&b.msgs)),
         "json" => unit(zk.octets_of_json(kind_of(c["kind"].as_str().unwrap_or("")), c["j"].as_str().unwrap_or(""))),
-        "proof_gen_idx" => unit(zk.proof_gen(&k.pk, &b.sig, h, ph, Some(&take(&b.msgs, us(&c["nm"]))), Some(&usv(&c["idx"])))),
-        "proof_verify_idx" => zk.proof_verify(&k.pk, &b.proof, h, ph, Some(&take(&b.msgs, us(&c["nm"]))), Some(&usv(&c["idx"]))),
-        "blind_proof_gen_idx" => unit(zk.blind_proof_gen(&k.pk, &b.bsig, h, ph, Some(&take(&b.bmsgs, us(&c["nm"]))), Some(&take(&b.bcms, us(&c["ncm"]))), Some(&usv(&c["idx"])), Some(&usv(&c["cidx"])), Some(&b.blind))),
+        // "none": which optional lists are passed as None (m = messages, i = indexes, c = committed messages, j = committed indexes)
+        "proof_gen_idx" => { let (m, i) = (take(&b.msgs, us(&c["nm"])), usv(&c["idx"])); unit(zk.proof_gen(&k.pk, &b.sig, h, ph, if none(c, 'm') { None } else { Some(&m) }, if none(c, 'i') { None } else { Some(&i) })) }
+        "proof_verify_idx" => { let (m, i) = (take(&b.msgs, us(&c["nm"])), usv(&c["idx"])); zk.proof_verify(&k.pk, &b.proof, h, ph, if none(c, 'm') { None } else { Some(&m) }, if none(c, 'i') { None } else { Some(&i) }) }
+        "blind_proof_gen_idx" => { let (m, cm, i, ci) = (take(&b.bmsgs, us(&c["nm"])), take(&b.bcms, us(&c["ncm"])), usv(&c["idx"]), usv(&c["cidx"]));
+            unit(zk.blind_proof_gen(&k.pk, &b.bsig, h, ph, if none(c, 'm') { None } else { Some(&m) }, if none(c, 'c') { None } else { Some(&cm) }, if none(c, 'i') { None } else { Some(&i) }, if none(c, 'j') { None } else { Some(&ci) }, Some(&b.blind))) }
         "blind_proof_verify_idx" => {
             let l = if c["l"].is_null() { None } else { Some(us(&c["l"])) };
-            zk.blind_proof_verify(&k.pk, &b.bproof, h, ph, l, Some(&take(&b.bmsgs, us(&c["nm"]))), Some(&take(&b.bcms, us(&c["ncm"]))), Some(&usv(&c["idx"])), Some(&usv(&c["cidx"])))
+            let (m, cm, i, ci) = (take(&b.bmsgs, us(&c["nm"])), take(&b.bcms, us(&c["ncm"])), usv(&c["idx"]), usv(&c["cidx"]));
+            zk.blind_proof_verify(&k.pk, &b.bproof, h, ph, l, if none(c, 'm') { None } else { Some(&m) }, if none(c, 'c') { None } else { Some(&cm) }, if none(c, 'i') { None } else { Some(&i) }, if none(c, 'j') { None } else { Some(&ci) })
         }
         "update_signature" => unit(zk.update_signature(&k.sk, &b.sig, &b.msgs[0], b"new", us(&c["i"]), us(&c["n"]))),
         "verify_n" => zk.verify(&k.pk, &b.sig, h, Some(&take(&b.msgs, us(&c["nm"])))),
